@@ -6,6 +6,7 @@ dynamic flags per element read by the caller at the moment of an operation (node
 Spec format (all JSON-safe; port numbers are ints inside lists, never dict keys):
 
     {"family": "...", "dur": 1,
+     (any node may carry "off": true = declared `operating_state: OFF`)
      "nodes": [{"k": "switch", "name": "s0"},
                {"k": "host", "name": "h0", "ip": "10.1.1.10", "plen": 24, "gw": "10.1.1.1"|None, "dns": bool},
                {"k": "router"|"firewall"|"wrouter", "name": "r0", "ifs": [[port, ip, plen], ...],
@@ -67,12 +68,16 @@ def ref_lpm(routes: List[Tuple[int, int, float]], dst: int) -> List[int]:
 PERMIT_ALL = {"action": "PERMIT"}
 
 
-def build_cfg(spec: Dict) -> Dict:
+def build_cfg(spec: Dict, n_domains: int = 0) -> Dict:
+    """Scenario dict for a spec. DNS servers get the domains q0.test .. q<n_domains-1>.test through the documented
+    `domain_mapping` option (so that a server declared OFF knows them too once it is started)."""
     dur = int(spec.get("dur", 1))
     nodes = []
     for n in spec["nodes"]:
         k = n["k"]
         common = {"hostname": n["name"], "start_up_duration": dur, "shut_down_duration": dur}
+        if n.get("off"):
+            common["operating_state"] = "OFF"
         if k == "switch":
             nodes.append({"type": "switch", "num_ports": 8, **common})
         elif k == "host":
@@ -81,7 +86,8 @@ def build_cfg(spec: Dict) -> Dict:
             if n.get("gw"):
                 d["default_gateway"] = n["gw"]
             if n.get("dns"):
-                d["services"] = [{"type": "dns-server"}]
+                d["services"] = [{"type": "dns-server", "options": {
+                    "domain_mapping": {f"q{i}.test": "10.99.0.1" for i in range(n_domains)}}}]
             nodes.append(d)
         elif k == "router":
             d = {"type": "router", "num_ports": 5, **common,
@@ -142,6 +148,7 @@ class Ref:
     def __init__(self, spec: Dict):
         self.spec = spec
         self._trace: Optional[List[str]] = None
+        self.saw_hairpin = False  # set when a walk leaves a routing device through the port it entered by
         self.kind: Dict[str, str] = {}
         self.node: Dict[str, Dict] = {}
         self.ifs: Dict[Tuple[str, int], Tuple[int, int]] = {}  # (node, port) -> (ip, plen)
@@ -279,6 +286,8 @@ class Ref:
             return {(TO_ROUTER, n)}
         c = self.connected_port(n, dst)
         if c is not None:
+            if c == _p:
+                self.saw_hairpin = True
             if not st.en(n, c):
                 return {(DROP, "out-port-disabled")}
             owners = [o for o in self.l2_owners(n, c, dst, st) if st.up(o[0])]
@@ -301,6 +310,8 @@ class Ref:
             if c is None:
                 out.add((UNKNOWN, "next-hop-not-connected"))
                 continue
+            if c == _p:
+                self.saw_hairpin = True
             if not st.en(n, c):
                 out.add((DROP, "out-port-disabled"))
                 continue
